@@ -599,8 +599,12 @@ pub fn generate(prop: &str, thorough: bool, seed: u64, idx: u64) -> Sc {
         11 | 12 | 13 => "top_ret",
         14 | 15 => "fault",
         16 => "exit",
+        // the end of the code is reached by a taken branch / the last instruction is a branch taken backwards
+        17 => "branch_to_end",
+        18 => "backward_branch_last",
         _ => "end",
     };
+    let strip_last = ending == "branch_to_end";
     let ending = if (ending == "top_ret") && !has_stack { "end" } else { ending };
     let n_traps = cfg.below(3);
     let mut traps: Vec<&'static str> = Vec::new();
@@ -683,6 +687,58 @@ pub fn generate(prop: &str, thorough: bool, seed: u64, idx: u64) -> Sc {
                 g.a.syscall()?;
                 g.a.nop()?;
             }
+            "branch_to_end" => {
+                // a taken branch whose target is exactly the end of the code (the NOP behind the label is cut off below)
+                let mut end = g.a.create_label();
+                match g.rng.below(5) {
+                    0 => g.a.jmp(end)?,
+                    1 => {
+                        g.a.xor(ecx, ecx)?;
+                        g.a.jrcxz(end)?;
+                    }
+                    2 => {
+                        g.a.xor(ecx, ecx)?;
+                        g.a.jecxz(end)?;
+                    }
+                    3 => {
+                        g.a.cmp(eax, eax)?;
+                        g.a.je(end)?;
+                    }
+                    _ => {
+                        g.a.cmp(eax, eax)?;
+                        g.a.jae(end)?;
+                    }
+                }
+                let dead = g.rng.below(4);
+                for _ in 0..dead {
+                    g.a.int3()?;
+                }
+                g.a.set_label(&mut end)?;
+                g.a.nop()?;
+            }
+            "backward_branch_last" => {
+                // the last instruction of the code is a branch that is taken backwards once and falls
+                // through - into the end of the code - the second time
+                let mut body = g.a.create_label();
+                let mut check = g.a.create_label();
+                g.a.xor(ecx, ecx)?;
+                g.a.jmp(check)?;
+                g.a.set_label(&mut body)?;
+                g.a.inc(ecx)?;
+                g.a.set_label(&mut check)?;
+                match g.rng.below(4) {
+                    0 => g.a.jrcxz(body)?,
+                    1 => g.a.jecxz(body)?,
+                    2 => {
+                        g.a.test(ecx, ecx)?;
+                        g.a.je(body)?;
+                    }
+                    _ => {
+                        g.a.cmp(ecx, 1)?;
+                        g.a.jb(body)?;
+                    }
+                }
+            }
             "fault" => match g.rng.below(5) {
                 0 => {
                     let r = POOL[g.reg()];
@@ -722,7 +778,11 @@ pub fn generate(prop: &str, thorough: bool, seed: u64, idx: u64) -> Sc {
     let (code, entry) = match res.and_then(|_| a.assemble_options(code_start, BlockEncoderOptions::RETURN_NEW_INSTRUCTION_OFFSETS)) {
         Ok(r) => {
             let e = r.label_ip(&main_l).unwrap_or(code_start);
-            (r.inner.code_buffer, e)
+            let mut code = r.inner.code_buffer;
+            if strip_last && code.last() == Some(&0x90) {
+                code.pop();
+            }
+            (code, e)
         }
         Err(_) => (vec![0x90, 0x90], code_start),
     };
